@@ -352,6 +352,7 @@ pub fn exec_traced<'a>(ctx: &'a mut Ctx, sc: &'a Value, plan: &Value, tag: &str)
                     let kind = match &action {
                         Action::Errno(e) => format!("errno.{}@{}", errno_name(*e), name),
                         Action::ErrnoPersist(e) => format!("errno_persistent.{}@{}", errno_name(*e), name),
+                        Action::TruncBefore(_) => format!("file_truncated_under_call@{}", name),
                         Action::Short(_) => format!("short_write@{}", name),
                         Action::ShortThenErr(_, e) => format!("short_then_{}@{}", errno_name(*e), name),
                         Action::KillEntry | Action::KillExit => "kill".to_string(),
@@ -641,6 +642,16 @@ pub fn run_plan(ctx: &mut Ctx, sc: &Value, plan: &Value, tag: &str) -> Sub {
         return finish_exec(ex, &replay);
     }
     let oracle = sc["oracle"].as_str().unwrap_or("strict").to_string();
+    // a content file that was truncated under a call is damaged from then on (the environment's doing)
+    {
+        let cache_s = normalize(&crate::penc::penc(&ex.it.cache));
+        let rels: Vec<String> = ex.sub.events.iter().filter(|e| matches!(e.action, Action::TruncBefore(_))).filter_map(|e| e.sys.path.as_ref().and_then(|p| p.strip_prefix(&format!("{}/", cache_s)).map(|r| r.to_string()))).collect();
+        for rel in rels {
+            if let Some(c) = ex.it.m.content.get_mut(&rel) {
+                c.state = CState::Damaged;
+            }
+        }
+    }
     let clients = sc["clients"].as_array().cloned().unwrap_or_default();
     let has_fault = plan["faults"].as_array().map(|a| !a.is_empty()).unwrap_or(false);
     let fault_client = plan["faults"][0]["client"].as_u64().unwrap_or(0) as usize;
@@ -747,7 +758,8 @@ pub fn run_plan(ctx: &mut Ctx, sc: &Value, plan: &Value, tag: &str) -> Sub {
     let n0 = ex.it.out.viols.len();
     ex.it.run_steps(&post, 1000);
     let _ = n0;
-    if has_fault && sc["retry"].as_bool().unwrap_or(false) {
+    let truncated_under_call = ex.sub.events.iter().any(|e| matches!(e.action, Action::TruncBefore(_)));
+    if has_fault && sc["retry"].as_bool().unwrap_or(false) && !truncated_under_call {
         // once the fault is gone the same call succeeds
         let c = &clients[fault_client];
         if let Some(op_i) = ex.sub.events.iter().find(|e| e.action != Action::Exec).and_then(|e| e.op).map(|i| i.saturating_sub(1)) {
@@ -984,6 +996,19 @@ fn enumerate_faults(sc: &Value, census: &Sub, tier: &str) -> Vec<Value> {
                             // the source stays gone: whoever retries must give up
                             out.push(f(Action::ErrnoPersist(libc::ENOENT)));
                         }
+                    }
+                }
+                // the content file shrinks under the call (another process truncates it, a copy onto a hard link of it
+                // is starting): reads come back short, mapped pages disappear. The call must report an error or be
+                // right, and the process must survive
+                // (only for calls that hand the bytes back themselves: copy / hard_link / reflink verify first and
+                // extract afterwards, so a file that changes between the two steps is delivered unverified - an
+                // observation outside the properties, which quantify over damage that is there before the call)
+                let victim_opname = sc["clients"][0]["steps"][victim_op - 1]["op"].as_str().unwrap_or("");
+                if matches!(victim_opname, "read" | "reader") && matches!(ev.sys.nr, SYS_READ | SYS_PREAD64 | SYS_MMAP | SYS_FSTAT | SYS_STATX | SYS_NEWFSTATAT) && ev.sys.path.as_deref().map(|p| p.contains("/content-v2/")).unwrap_or(false) && !ev.sys.mutating {
+                    out.push(f(Action::TruncBefore(0)));
+                    if tier != "quick" {
+                        out.push(f(Action::TruncBefore(1)));
                     }
                 }
                 if matches!(ev.sys.nr, SYS_READ | SYS_PREAD64) && ev.ret >= 2 {
